@@ -157,3 +157,82 @@ Proof.
   exists p. split; [reflexivity|].
   exact (FragGlue.frag_glue CompFacts.front_half_lemma prog4 p (proj1 prog4_frag) E).
 Qed.
+
+(* ---- the fragment F1: multi-target local declarations and multiple assignments ---- *)
+From GL Require Import CC.Frag1Sem.
+From GL Require CC.Frag1Facts CC.Frag1Eval CC.Frag1Glue.
+Definition vd : name := [100]. Definition ve : name := [101].
+
+(* local a, b = 1, 2; a, b = b, a; local c, d = a + b; local e = 7, 8, a; a, a, d = 10, 20; return a, b, c, d, e *)
+Definition prog5 : list stmt :=
+  [SLocal 1 [va; vb] [ENum 1; ENum 2];
+   SAssign 2 [EVar va; EVar vb] [EVar vb; EVar va];
+   SLocal 3 [vc; vd] [EBin OAdd (EVar va) (EVar vb)];
+   SLocal 4 [ve] [ENum 7; ENum 8; EVar va];
+   SAssign 5 [EVar va; EVar va; EVar vd] [ENum 10; ENum 20];
+   SReturn 6 [EVar va; EVar vb; EVar vc; EVar vd; EVar ve]].
+
+(* local a, b = 1; a, b = 2, a + b     (b is nil: the second right-hand side faults, nothing is stored) *)
+Definition prog6 : list stmt :=
+  [SLocal 1 [va; vb] [ENum 1]; SAssign 2 [EVar va; EVar vb] [ENum 2; EBin OAdd (EVar va) (EVar vb)];
+   SReturn 3 [EVar va]].
+
+(* local a = 1, nil + 1     (an extra expression is still evaluated) *)
+Definition prog7 : list stmt := [SLocal 1 [va] [ENum 1; EBin OAdd ENil (ENum 1)]; SReturn 2 [EVar va]].
+
+Example progs_in_frag1 :
+  in_frag1 prog5 = true /\ in_frag1 prog6 = true /\ in_frag1 prog7 = true /\
+  in_frag prog5 = false /\ in_frag prog6 = false /\ in_frag prog7 = false /\
+  tie_frag prog5 = true /\ tie_frag prog6 = true /\ tie_frag prog7 = true.
+Proof. vm_compute. repeat split; reflexivity. Qed.
+
+Example progs1_compile : (exists p, compile_frag prog5 = Some p) /\ (exists p, compile_frag prog6 = Some p) /\
+                         (exists p, compile_frag prog7 = Some p).
+Proof. repeat split; eexists; vm_compute; reflexivity. Qed.
+
+Example prun1_values : prun1 [] prog5 = CRet [VNum 10; VNum 1; VNum 3; VNil; VNum 7] /\
+  prun1 [] prog6 = CFault 2 /\ prun1 [] prog7 = CFault 1.
+Proof. vm_compute. repeat split; reflexivity. Qed.
+
+(* both sides of frag1_compile_correct by computation *)
+Example prog5_equation :
+  vm_outcome (compiled prog5) = outcome_of (run_program fuel no_devs prog5) /\
+  vm_outcome (compiled prog5) = Outcome [] (OOk [ONum 10; ONum 1; ONum 3; ONil; ONum 7]).
+Proof. vm_compute. split; reflexivity. Qed.
+
+Example prog6_equation :
+  vm_outcome (compiled prog6) = outcome_of (run_program fuel no_devs prog6) /\
+  vm_outcome (compiled prog6) = Outcome [] (OErr (OFault 2 2)).
+Proof. vm_compute. split; reflexivity. Qed.
+
+Example prog7_equation :
+  vm_outcome (compiled prog7) = outcome_of (run_program fuel no_devs prog7) /\
+  vm_outcome (compiled prog7) = Outcome [] (OErr (OFault 2 1)).
+Proof. vm_compute. split; reflexivity. Qed.
+
+(* the swap and the stores are MOVE runs merged into MOVEN words; isem of the unpatched code = prun1 *)
+Example prog5_has_moven : existsb (fun w => is_opc w OP_MOVEN) (xp_code (compiled prog5)) = true.
+Proof. vm_compute. reflexivity. Qed.
+
+Example isem_is_prun1 :
+  isem_code (fst (ucode prog5)) (snd (ucode prog5)) [] = prun1 [] prog5 /\
+  isem_code (fst (ucode prog6)) (snd (ucode prog6)) [] = prun1 [] prog6.
+Proof. vm_compute. split; reflexivity. Qed.
+
+(* the theorems applied *)
+Example frag1_reference_applies : exists s', run_program 12 no_devs prog5 = FinOk [VNum 10; VNum 1; VNum 3; VNil; VNum 7] s' /\ trace s' = [].
+Proof.
+  destruct progs_in_frag1 as [H _]. destruct prun1_values as [P _].
+  pose proof (Frag1Eval.frag1_run_lemma prog5 12 no_devs H) as L. rewrite P in L.
+  destruct L as [s' [E [T _]]]; [vm_compute; lia|]. exists s'. split; assumption.
+Qed.
+
+Example frag1_compile_correct_applies : exists p, compile_frag prog5 = Some p /\
+  exists n, forall fuel, (n <= fuel)%nat ->
+    is_skip (outcome_of (run_program fuel no_devs prog5)) = false ->
+    outcome_of_vfin (run_proto fuel p) = outcome_of (run_program fuel no_devs prog5).
+Proof.
+  destruct (compile_frag prog5) as [p|] eqn:E; [|vm_compute in E; discriminate].
+  exists p. split; [reflexivity|].
+  exact (Frag1Glue.frag1_compile_correct_lemma prog5 p (proj1 progs_in_frag1) E).
+Qed.
